@@ -31,6 +31,7 @@ PROBES = [
     "rewrite-same-value",
     "value-is-a-node-body",
     "value-is-a-default-subtree-body",
+    "reopened-on-compacted-store",
     "write-failed-on-lossy-store",
     "write-acknowledged-on-lossy-store-readable",
 ]
@@ -258,6 +259,23 @@ class SWorld:
         the run continues on it."""
         if self.degraded:
             return "skip"
+        if cmd.get("compact"):
+            # the operator first copies the live nodes (those reachable from the current
+            # root) into a new store and drops the rest; the tree is re-opened on that store
+            raw = self.db.raw()
+            seen, level = set(), {self.smt.root_hash}
+            for _ in range(self.ks * 8):
+                nxt = set()
+                for x in level:
+                    seen.add(x)
+                    if x not in raw:
+                        self.viol("from-db-differs", f"node {x.hex()}, reachable from the current root, is not in the store the tree was opened on")
+                    nxt.add(raw[x][:32])
+                    nxt.add(raw[x][32:])
+                level = nxt
+            seen |= level
+            self.db = make_store(self.cfg, {x: raw[x] for x in seen})
+            self.st.probe("reopened-on-compacted-store")
         try:
             other = SparseMerkleTree.from_db(self.db, fresh(self.smt.root_hash), key_size=self.ks, default=fresh(self.default))
         except Exception as e:
@@ -383,7 +401,7 @@ def gen_history(rng, keys, vals, n):
         elif r < 9 + w_del:
             cmds.append({"op": "get", "k": k, "api": rng.choice(["get", "exists", "in", "getitem"])})
         else:
-            cmds.append({"op": "reopen"})
+            cmds.append({"op": "reopen", "compact": int(rng.random() < 0.3)})
         if rng.random() < p_hdl:
             cmds[-1]["hdl"] = 1
         if rng.random() < p_sub and "k" in cmds[-1]:
